@@ -504,6 +504,9 @@ class Concatenator(Group):  # pylint: disable=too-many-public-methods
                 object_ids.remove(as_str_if_uuid(entity.uid).encode())
                 self.concatenated_object_ids = object_ids
 
+            if entity in self._children:
+                self._children.remove(entity)
+
         elif isinstance(entity, ConcatenatedPropertyGroup):
             # Remove all data within the group
             if entity.properties is not None and len(entity.properties) > 0:
